@@ -48,6 +48,19 @@ CHECKS = {
    design_ref='DESIGN.md section 6 / C05',
    technique='Coq-verified checker applied to implementation outputs + proof of the invariant on the model + correspondence',
    note=TB + " Partial: that the model's own peer list tiles the address space (elementary partition) is established by the verified checker on every run, not yet by a theorem."),
+ 'C12': dict(
+   text="PARTIAL. Fault enumeration is the deciding technique here: every JSON path of 16 seed manifests (all kinds the tool reads) x {drop, null, empty, wrong type, odd addresses} through list, list --exposure, diff and eval with recovered panics, "
+        "the real binary on a sample, and damaged files (quick: the pointer-field mutants plus a seeded sample; thorough: all). The Coq part (Model/Total.v) models the sites where an optional field is read with an explicit Panic outcome and proves "
+        "that for every combination of present/absent fields none panics when status.hostIP is IPv4 or absent, and exhibits the remaining failing input (hostIP IPv6/garbage) as a _refuted theorem.",
+   design_ref='DESIGN.md section 6 / C12',
+   technique='fault enumeration over structural mutations (all four commands, recovered panics) + Coq proof of totality of the optional-field sites',
+   note=TB + " Partial: arbitrary bytes and the third-party decoders are outside any theorem. Three panics were repaired by fix: commits; the hostIP panic is a known finding (its repair changes reports)."),
+ 'C13': dict(
+   text="PARTIAL. Machine-checked proof (Coq) on the pipeline model (document classification, error accumulation, stop-on-error and fatal-error control flow of parser.go/connlist.go over the analysis model) that documents of unused kinds, schema-bad resources and broken files "
+        "placed anywhere never change the connections, that each malformed item is a severe entry of Errors(), that stop-on-error with a severe error yields no partial report and a fatal error no result; on the implementation, junk injection at every placement x stop on/off x list/diff against the real run on the clean input.",
+   design_ref='DESIGN.md section 6 / C13',
+   technique='Coq proof of the control flow over the analysis model + junk-injection metamorphic check on the implementation',
+   note=TB + " Partial: the behaviour of the cli-runtime resource builder on broken files is assumed in the model and sampled."),
  'C14': dict(
    text="Machine-checked proof (Coq) of the additivity, locality and spelling-equivalence laws on the pointwise NetworkPolicy semantics (which the computed report equals on every point by C01): adding a rule in a governed "
         "direction or a policy on already-governed pods never removes, a policy on ungoverned pods never adds, unselected pairs are unchanged; matchLabels = single-value In, range split, CIDR halves, policy split, explicit = defaulted policyTypes. "
@@ -76,6 +89,12 @@ CHECKS = {
    design_ref='DESIGN.md section 6 / C17',
    technique='Coq proof (view congruence + canonical-form uniqueness) + metamorphic relation between two implementation runs',
    note=TB + " Known finding (not repaired): generated pod names collide for two workloads with one namespace/name (C17_distinct_workloads_shadow_refuted); the check prints KNOWN-FINDING for collision worlds only."),
+ 'C18': dict(
+   text="PARTIAL. Machine-checked proof (Coq) of the CLI decision logic (flags -> options, validation, stdout, -f file, exit status) with the library call as a parameter: for every flag combination and library behaviour stdout is the library string for the mapped options, "
+        "the file holds the same bytes and the exit status is non-zero exactly when the library (or flag validation) fails. The real binary is run with random flag combinations on clean / severe / fatal directories and compared with in-process library calls (stdout bytes, file bytes, exit status); ConnlistFromResourceInfos is compared with ConnlistFromDirPath.",
+   design_ref='DESIGN.md section 6 / C18',
+   technique='Coq proof of the CLI decision logic + binary-vs-library differential check',
+   note=TB + " Partial: process behaviour (cobra parsing, real stdout/file) is sampled."),
  'C19': dict(
    text="Machine-checked proof (Coq): (1) for ANY correct comparison sort modelled as a decision tree, running it with the Go callback records an error whenever two priorities are equal and (n>=2) whenever one is "
         "out of range — so detection cannot depend on sort.Slice internals; (2) in the model of addObjectsByKind every listed conflict (same priority, out-of-range priority, same ANP name, same NetworkPolicy name, "
